@@ -23,6 +23,17 @@ def v(c, suite, q, t, chunks=NCH, **kw):
     c.validate_many(traces, 'V:' + suite)
 
 
+def in_release(c, f):
+    """run the passes of f once more in the release build (no overflow checks, no debug assertions): the statements about
+    panics and values hold in every build, and a wrapping `+` or an `as` cast behaves differently there"""
+    c.default_profile = 'release'
+    try:
+        f()
+    finally:
+        c.default_profile = 'dev'
+    c.cov.setdefault('profiles', ['dev', 'release'])
+
+
 def run(c):
     globals()['plan_' + c.pid](c)
 
@@ -297,6 +308,7 @@ def plan_C01(c):
     g_bounds(c, ['add', 'sub', 'checked_add', 'checked_sub'])
     g_intforms(c, ['add', 'sub', 'checked_add', 'checked_sub'])
     v(c, 'c01', 6000, 200000)
+    in_release(c, lambda: (g_intforms(c, ['add', 'sub', 'checked_add', 'checked_sub']), v(c, 'c01', 3000, 100000)))
 
 
 def plan_C02(c):
@@ -306,6 +318,7 @@ def plan_C02(c):
     g_bounds(c, ['mul', 'checked_mul'], with_modes=True)
     g_intforms(c, ['mul', 'checked_mul'])
     v(c, 'c02', 5000, 150000)
+    in_release(c, lambda: (g_intforms(c, ['mul', 'checked_mul']), v(c, 'c02', 2500, 75000)))
 
 
 def plan_C03(c):
@@ -320,6 +333,7 @@ def plan_C03(c):
     if c.tier != 'quick':
         g_bounds(c, ['div', 'checked_div'], with_modes=True)
     v(c, 'c03', 4000, 120000)
+    in_release(c, lambda: (g_intforms(c, ['div', 'checked_div']), v(c, 'c03', 2000, 60000)))
 
 
 def plan_C04(c):
@@ -331,6 +345,7 @@ def plan_C04(c):
     g_knuth(c, 'div_rounded')
     g_intforms(c, ['div_rounded', 'quantize'], with_modes=c.tier != 'quick')
     v(c, 'c04', 5000, 150000)
+    in_release(c, lambda: v(c, 'c04', 2500, 75000))
 
 
 def plan_C05(c):
@@ -374,6 +389,7 @@ def plan_C05(c):
                             calls.append({'ev': 'un', 't': 1, 'op': op, 'x': jdec((sg * coef, f)), 'n': n})
     run_vectors_with_modes(c, calls, 'roundgrid')
     v(c, 'c05', 6000, 200000)
+    in_release(c, lambda: v(c, 'c05', 3000, 100000))
 
 
 ALPHABET = [[48], [49], [53], [57], [46], [101], [69], [43], [45], [32], [120], [95], [195, 169]]
@@ -416,10 +432,13 @@ def g_parse_scaling(c):
         for j in sorted({1, len(ds) // 2, len(ds) - 1} - {0}):
             if j < len(ds):
                 sp.append('%s.%se%d' % (ds[:-j], ds[-j:], e + j))       # same value, fraction point inside the digits
-        if e == 0:
-            sp.append(ds)
         for k2, lit in enumerate(sp):
             calls.append({'ev': 'parse', 't': 1, 'form': forms[(i + k2) % 4], 'radix': 10, 'bs': list(lit.encode())})
+        if e == 0:
+            # the bare integer spelling, every sign, through every entry point (each may have its own integer short-cut)
+            for sg in ('', '-', '+', '-00'):
+                for fm in forms:
+                    calls.append({'ev': 'parse', 't': 1, 'form': fm, 'radix': 10, 'bs': list((sg + ds).encode())})
     run_vectors(c, calls, 'parse-scaling')
 
 
@@ -491,6 +510,7 @@ def plan_C10(c):
     g_small(c, ['rem', 'checked_rem'])
     g_intforms(c, ['rem', 'checked_rem'])
     v(c, 'c10', 6000, 200000)
+    in_release(c, lambda: (g_intforms(c, ['rem', 'checked_rem']), v(c, 'c10', 3000, 100000)))
 
 
 def plan_C11(c):
@@ -510,6 +530,17 @@ def plan_C12(c):
     v(c, 'c12', 2500, 80000)
 
 
+def float_calls(c):
+    """every exponent field of f32 and f64 x fraction class x sign (TLC grid "floats")"""
+    calls = []
+    for w, sg, bexp, fc in grid(c, 'floats'):
+        fb = 52 if w == 64 else 23
+        full = (1 << fb) - 1
+        frac = [0, 1, full, full // 3, 1 << (fb - 1), (1 << (fb - 1)) + 1, full - 1, 0x2AAAA][fc] & full
+        calls.append({'ev': 'fromfloat', 't': 1, 'w': w, 'sign': sg, 'bexp': bexp, 'frac': jnum(frac)['m']})
+    return calls
+
+
 def plan_C13(c):
     # design level: decode / cut-off / approx_rational / normalize of from_float.rs in miniature against FromFloat, all mini floats
     c.mc('MC_Float', cfg='MC_Float_from_ok')
@@ -517,13 +548,7 @@ def plan_C13(c):
     for ctl in ('trunc', 'no_norm', 'cutoff'):
         c.mc('MC_Float', cfg='MC_Float_' + ctl, expect='violation')
     # every exponent field of both widths x fraction classes x sign, enumerated by TLC
-    calls = []
-    for w, sg, bexp, fc in grid(c, 'floats'):
-        fb = 52 if w == 64 else 23
-        full = (1 << fb) - 1
-        frac = [0, 1, full, full // 3, 1 << (fb - 1), (1 << (fb - 1)) + 1, full - 1, 0x2AAAA][fc] & full
-        calls.append({'ev': 'fromfloat', 't': 1, 'w': w, 'sign': sg, 'bexp': bexp, 'frac': jnum(frac)['m']})
-    run_vectors(c, calls, 'floats')
+    run_vectors(c, float_calls(c), 'floats')
     # the floats nearest to the decimal ties (k + 1/2) * 10^-j around the 18-digit rounding position, and their neighbours
     import struct
     calls = []
@@ -572,6 +597,7 @@ def plan_C14(c):
     run_vectors(c, calls, 'fromints')
     g_operands(c, lambda x, i: [{'ev': 'toint', 't': 1, 'ty': INT_TYPES10[i % 10], 'x': x}])
     v(c, 'c14', 6000, 200000)
+    in_release(c, lambda: v(c, 'c14', 3000, 100000))
 
 
 def plan_C15(c):
@@ -590,6 +616,7 @@ def plan_C15(c):
     consts += [{'ev': 'intratio', 't': 1, 'ty': t, 'v': jnum(int_class(t, k))} for t in INT_TYPES9 for k in (1, 2, 3, 6, 7)]
     run_vectors(c, consts, 'consts')
     v(c, 'c15', 6000, 200000)
+    in_release(c, lambda: v(c, 'c15', 3000, 100000))
 
 
 def plan_C16(c):
@@ -656,6 +683,7 @@ def plan_C17(c):
             impls.add((e['op'], e['xt'], e['yt']))
     c.cov['distinct_impl_rows_exercised'] = len(impls)      # x 4 reference forms (+ 2 assignment forms) each
     v(c, 'c17', 3000, 100000)
+    in_release(c, lambda: v(c, 'c17', 1500, 50000))
 
 
 def plan_C19(c):
@@ -757,7 +785,8 @@ def plan_C20(c):
     UN = ['floor', 'ceil', 'trunc', 'fract', 'abs', 'neg', 'round', 'checked_round']
     BIN = ['add', 'sub', 'mul', 'div', 'rem', 'checked_add', 'checked_sub', 'checked_mul', 'checked_div', 'checked_rem', 'div_rounded', 'mul_rounded', 'quantize']
     calls = [{'ev': 'set', 't': 1, 'mode': MODES[(c.seed * 3 + 1) % 8]}]
-    for i, x in enumerate(grid(c, 'operands')):
+    ostride = 2 if c.tier == 'quick' else 1
+    for i, x in enumerate(sorted(grid(c, 'operands'), key=lambda v: json.dumps(v, sort_keys=True))[c.seed % ostride::ostride]):
         op = UN[(i + i // len(UN)) % len(UN)]
         calls.append({'ev': 'un', 't': 1, 'op': op, 'x': x, 'n': [0, -1, 2, 17, -38][(i // 3) % 5]})
         if i % 4 == 0:
@@ -768,8 +797,13 @@ def plan_C20(c):
     for i, vv in enumerate(vecs):
         op = BIN[(i + i // len(BIN)) % len(BIN)]
         calls.append({'ev': 'bin', 't': 1, 'op': op, 'x': vv['x'], 'y': vv['y'], 'xt': 'dec', 'yt': 'dec', 'n': [0, 18, 2, 9][(i // 7) % 4], 'acc': 0, 'form': i % 4})
+    # conversions: every exponent field of both float widths (every second fraction class), integers at every power of two
+    fl = sorted(float_calls(c), key=lambda e: (e['w'], e['bexp'], e['sign'], str(e['frac'])))
+    calls += fl[c.seed % 2::2]
     g_traces = {}
     for prof, feats in builds:
+        if c.tier == 'quick' and 'packed' in feats:
+            continue        # the packed layout changes loads and stores, not arithmetic: V driver above; grids in the thorough tier
         label = prof + ('_packed' if 'packed' in feats else '')
         g_traces[label] = c.exec_vectors(calls, 'grid_' + label, chunks=8, profile=prof, features=feats)
         c.validate_many(g_traces[label], 'G:grid[%s]' % label)
